@@ -132,6 +132,11 @@ def spec_dir(ctx):
         for f in os.listdir(os.path.join(VERIF, "spec")):
             if f.endswith(".tla") or f.endswith(".cfg"):
                 shutil.copy(os.path.join(VERIF, "spec", f), ctx.specdir)
+        # TldData is always generated from the tree under test (the CSV is the specification of the table)
+        import gen_tlddata
+        ctx.tld_rows = gen_tlddata.main(os.path.join(REPO, "data", "punycode.csv"),
+                                        os.path.join(ctx.specdir, "TldData.tla"),
+                                        os.path.join(REPO, "data", "raw.csv"))
     return ctx.specdir
 
 
